@@ -250,12 +250,15 @@ def _expected_seed(rec: Recorder, pos: int) -> int:
     return rec.draws[off + pos - 1]
 
 
-def _gen_k(sampler, rows, bs) -> int:
-    """position of the sampler's generator, recovered from the values it drew"""
+def _gen_k(sampler, rows, bs, expect: int) -> int:
+    """position of the sampler's generator, recovered from the values it drew (values repeat: the expected
+    position is tried first, any other matching position only if the expected one does not match)"""
     if not isinstance(sampler, _Scripted) or sampler.random_state is None or bs == 0:
         return -2
     stream = np.random.default_rng(sampler.random_state).integers(0, 1024, size=bs * 64)
     want = [int(r[3]) for r in rows]
+    if 0 <= expect < 63 and [int(x) for x in stream[expect * bs:(expect + 1) * bs]] == want:
+        return expect
     for k in range(64 - 1):
         if [int(x) for x in stream[k * bs:(k + 1) * bs]] == want:
             return k
@@ -298,7 +301,7 @@ def _sample_wrapper(self, search_space, existing_points, existing_losses):
             rec.log({"e": "fault", "at": "sampler", "native": True})   # a built-in sampler raised by itself: a fault like any other
         raise
     root = "cal" if self.random_state == _expected_seed(rec, pos) else "ctor"
-    gk = _gen_k(self, out, len(out))
+    gk = _gen_k(self, out, len(out), k)
     rec.log({"e": "sample", "s": pos, "cls": type(self).__name__, "root": root, "k": k, "gk": k if gk == -2 else gk,
              "pids": [rec.pid(r) for r in out], **pre})
     return out
